@@ -9,11 +9,13 @@
 (*          ban and blacklist durations in ms AS CONFIGURED IN THE REAL OBJECTS; rate in tokens  *)
 (*          per second; safety margins in ms; rate slack in milli-tokens; aTol = how much earlier *)
 (*          than logged an Async run may have happened (free-running logs)                       *)
-(*   Hs     [kind, res, cred]   one HandleHandshake call: kind Bad|Good|Anon, res =              *)
+(*   Hs     [kind, res, cred]   one HandleHandshake call: kind Bad|Good|Zero|Anon|Anon2 (the last *)
+(*          two are the request shapes the handler treats as a registration), res =              *)
 (*          "bl" (refused: blacklisted) | "ban" (refused: too many failures) | "rate" (refused:  *)
 (*          limiter) | "fail" (credentials checked and rejected) | "ok"; cred = number of        *)
 (*          credential-store calls the handler made during the call                              *)
 (*   Query  [bl, ban]           IsAllowed / IsBanned asked directly (TRUE = refused)              *)
+(*   QueryN [n, no]             IsAllowed asked n times in a row; no = answers "not refused"      *)
 (*   Take   [ok]                RateLimiter.AllowIP asked directly                                *)
 (*   Async  [what]              a spawned `go UnbanIP` ("unban") / `go RemoveFromBlacklist`        *)
 (*                              ("unbl") ran now (only used to name the history shape)            *)
@@ -51,22 +53,25 @@ VARIABLES cfg,
           aU, aL,    \* ip -> t1 of asynchronous unban / un-blacklist runs
           blo, wlst, \* ip -> per entry form ("ip" exact address, "net" range containing it): the operator's
                      \*       latest blacklist order [k, from, to, born, end]; whitelisted through that form?
+          cl,        \* call brackets of the protector's clean-up passes
           lastReload,\* trace line of the last Reload (a fresh IPManager over the same storage), -1: none
           adm,       \* ip -> admitted anonymous registrations [t0, t1]
           refs       \* ip -> answers "banned" [t0, t1], justified at End
-vars == <<l, viol, cfg, fs, sf, lastSucc, lastMU, lastClean, ob, aU, aL, blo, wlst, lastReload, adm, refs>>
+vars == <<l, viol, cfg, fs, sf, lastSucc, lastMU, lastClean, ob, aU, aL, blo, wlst, lastReload, cl, adm, refs>>
 
 NoCfg == [thr |-> 0]
 NoBl == [k |-> "none", from |-> 0, to |-> 0, born |-> 0, end |-> 0, line |-> 0]
-FORMS == {"ip", "net"}       \* "other" = an entry that does not cover the address: no demand follows from it
+\* entry forms covering the address: itself, a narrow and a wide CIDR range (overlapping, independent
+\* lifetimes); "other" = an entry that does not cover the address: no demand follows from it
+FORMS == {"ip", "net", "net2"}
 NoBls == [f \in FORMS |-> NoBl]
 NoWls == [f \in FORMS |-> FALSE]
 Each(v) == [i \in IPS |-> v]
 Reset == /\ cfg' = NoCfg /\ fs' = Each(<<>>) /\ sf' = Each(<<>>) /\ lastSucc' = Each(-1) /\ lastMU' = Each(-1) /\ lastClean' = Each(-1)
-         /\ ob' = Each({}) /\ aU' = Each(<<>>) /\ aL' = Each(<<>>) /\ blo' = Each(NoBls) /\ wlst' = Each(NoWls) /\ lastReload' = -1
+         /\ ob' = Each({}) /\ aU' = Each(<<>>) /\ aL' = Each(<<>>) /\ blo' = Each(NoBls) /\ wlst' = Each(NoWls) /\ lastReload' = -1 /\ cl' = <<>>
          /\ adm' = Each(<<>>) /\ refs' = Each(<<>>)
 Init == /\ l = 1 /\ viol = {} /\ cfg = NoCfg /\ fs = Each(<<>>) /\ sf = Each(<<>>) /\ lastSucc = Each(-1) /\ lastMU = Each(-1) /\ lastClean = Each(-1)
-        /\ ob = Each({}) /\ aU = Each(<<>>) /\ aL = Each(<<>>) /\ blo = Each(NoBls) /\ wlst = Each(NoWls) /\ lastReload = -1
+        /\ ob = Each({}) /\ aU = Each(<<>>) /\ aL = Each(<<>>) /\ blo = Each(NoBls) /\ wlst = Each(NoWls) /\ lastReload = -1 /\ cl = <<>>
         /\ adm = Each(<<>>) /\ refs = Each(<<>>)
 
 Up(f, i, v) == [f EXCEPT ![i] = v]
@@ -84,9 +89,12 @@ NewOb(i, s, f) ==
 Binding(i, q) == {o \in ob[i] : o.from <= q.t0 /\ (o.perm \/ q.t1 <= o.to)}
 \* history shape: an asynchronous unban ran after the obligation arose ("lateUnban"); another failing
 \* handshake was in flight together with the one that created it ("overlapFail"); neither ("plain")
+\* a clean-up pass of the protector was under way when the obligation arose ("lateClean")
 Cause(i, o) == LET late == \E x \in 1..Len(aU[i]) : aU[i][x] + cfg.aTol >= o.born
                    ovl  == Cardinality({x \in 1..Len(fs[i]) : fs[i][x].t0 <= o.born /\ fs[i][x].t1 >= o.f0}) >= 2
-               IN IF ovl /\ late THEN "overlapFail+lateUnban" ELSE IF late THEN "lateUnban"
+                   cln  == \E x \in 1..Len(cl) : cl[x].t0 <= o.born /\ cl[x].t1 >= o.born
+               IN IF cln THEN "lateClean"
+                  ELSE IF ovl /\ late THEN "overlapFail+lateUnban" ELSE IF late THEN "lateUnban"
                   ELSE IF ovl THEN "overlapFail" ELSE "plain"
 \* the answer "not banned" over call interval q
 NotBanned(i, q) ==
@@ -100,16 +108,15 @@ NotBanned(i, q) ==
 \* order for the other entry form has run out by now ("shadowed": its expired entry is found first);
 \* the manager was re-created from storage after the order was given ("afterReload"); none ("plain")
 BlCause(i, f, b, q) ==
-  LET o == blo[i][IF f = "ip" THEN "net" ELSE "ip"] IN
   IF \E x \in 1..Len(aL[i]) : aL[i][x] + cfg.aTol >= b.born THEN "lateUnbl"
-  ELSE IF o.k = "temp" /\ q.t1 >= o.end THEN "shadowed"
+  ELSE IF \E g \in FORMS \ {f} : blo[i][g].k = "temp" /\ q.t1 >= blo[i][g].end THEN "shadowed"
   ELSE IF lastReload > b.line THEN "afterReload"
   ELSE "plain"
 Whitelisted(i) == \E f \in FORMS : wlst[i][f]
 NotBlacklisted(i, q) ==
   LET bind == {f \in FORMS : blo[i][f].k # "none" /\ blo[i][f].from <= q.t0 /\ (blo[i][f].k = "perm" \/ q.t1 <= blo[i][f].to)} IN
   IF Whitelisted(i) \/ bind = {} THEN {}
-  ELSE LET f == IF "net" \in bind THEN "net" ELSE "ip"  b == blo[i][f]
+  ELSE LET f == IF "net2" \in bind THEN "net2" ELSE IF "net" \in bind THEN "net" ELSE "ip"  b == blo[i][f]
        IN {V("BlacklistHolds", b.k \o ":" \o BlCause(i, f, b, q) \o ":" \o f)}
 
 \* ---- rate clause -----------------------------------------------------------------------------
@@ -137,7 +144,7 @@ EndViol == UNION {(IF \A x \in 1..Len(refs[i]) : Justified(i, refs[i][x]) THEN {
 
 \* ---- events ----------------------------------------------------------------------------------
 TrCfg == /\ Is("Cfg") /\ cfg' = Ev /\ l' = l + 1
-         /\ UNCHANGED <<viol, fs, sf, lastSucc, lastMU, lastClean, ob, aU, aL, blo, wlst, lastReload, adm, refs>>
+         /\ UNCHANGED <<viol, fs, sf, lastSucc, lastMU, lastClean, ob, aU, aL, blo, wlst, lastReload, cl, adm, refs>>
 
 TrHs ==
   /\ Is("Hs")
@@ -149,7 +156,7 @@ TrHs ==
          counted == q.t0 > lastSucc[i] /\ lastClean[i] - q.t0 < cfg.win - cfg.mE
          s1 == IF r = "fail" /\ q.t0 > lastSucc[i] THEN Append(sf[i], q) ELSE sf[i]     \* what this failure itself saw, at least
          s2 == IF r = "ok" THEN <<>> ELSE IF r = "fail" /\ ~counted THEN sf[i] ELSE s1
-         admitted == Ev.kind = "Anon" /\ Ev.cred > 0
+         admitted == Ev.kind \in {"Anon", "Anon2"} /\ Ev.cred > 0    \* a registration was granted (credentials issued)
          a2 == IF admitted THEN Append(adm[i], [t0 |-> q.t0, t1 |-> q.t1, how |-> "handshake"]) ELSE adm[i]
      IN /\ viol' = viol \cup (IF passedBl THEN NotBlacklisted(i, q) ELSE {})
                         \cup (IF passedBan THEN NotBanned(i, q) ELSE {})
@@ -164,28 +171,35 @@ TrHs ==
         /\ lastSucc' = IF r = "ok" THEN Up(lastSucc, i, q.t1) ELSE lastSucc
         /\ adm' = Up(adm, i, a2)
         /\ refs' = IF r = "ban" THEN Up(refs, i, Append(refs[i], q)) ELSE refs
-  /\ l' = l + 1 /\ UNCHANGED <<cfg, lastMU, lastClean, aU, aL, blo, wlst, lastReload>>
+  /\ l' = l + 1 /\ UNCHANGED <<cfg, lastMU, lastClean, aU, aL, blo, wlst, lastReload, cl>>
 
 TrQuery ==
   /\ Is("Query")
   /\ LET i == Ev.ip  q == Iv IN
      /\ viol' = viol \cup (IF ~Ev.bl THEN NotBlacklisted(i, q) ELSE {}) \cup (IF ~Ev.ban THEN NotBanned(i, q) ELSE {})
      /\ refs' = IF Ev.ban THEN Up(refs, i, Append(refs[i], q)) ELSE refs
-  /\ l' = l + 1 /\ UNCHANGED <<cfg, fs, sf, lastSucc, lastMU, lastClean, ob, aU, aL, blo, wlst, lastReload, adm>>
+  /\ l' = l + 1 /\ UNCHANGED <<cfg, fs, sf, lastSucc, lastMU, lastClean, ob, aU, aL, blo, wlst, lastReload, cl, adm>>
+
+\* n IsAllowed look-ups in a row inside one bracket (the range scan follows Go's randomised map
+\* iteration: the same state is asked many times); no = how many of them did not refuse
+TrQueryN ==
+  /\ Is("QueryN")
+  /\ viol' = viol \cup (IF Ev.no > 0 THEN NotBlacklisted(Ev.ip, Iv) ELSE {})
+  /\ l' = l + 1 /\ UNCHANGED <<cfg, fs, sf, lastSucc, lastMU, lastClean, ob, aU, aL, blo, wlst, lastReload, cl, adm, refs>>
 
 TrTake ==
   /\ Is("Take")
   /\ adm' = IF Ev.ok THEN Up(adm, Ev.ip, Append(adm[Ev.ip], [t0 |-> Ev.t0, t1 |-> Ev.t1, how |-> "allowIP"])) ELSE adm
-  /\ l' = l + 1 /\ UNCHANGED <<viol, cfg, fs, sf, lastSucc, lastMU, lastClean, ob, aU, aL, blo, wlst, lastReload, refs>>
+  /\ l' = l + 1 /\ UNCHANGED <<viol, cfg, fs, sf, lastSucc, lastMU, lastClean, ob, aU, aL, blo, wlst, lastReload, cl, refs>>
 
 TrAsync ==
   /\ Is("Async")
   /\ aU' = IF Ev.what = "unban" THEN Up(aU, Ev.ip, Append(aU[Ev.ip], Ev.t1)) ELSE aU
   /\ aL' = IF Ev.what = "unbl"  THEN Up(aL, Ev.ip, Append(aL[Ev.ip], Ev.t1)) ELSE aL
-  /\ l' = l + 1 /\ UNCHANGED <<viol, cfg, fs, sf, lastSucc, lastMU, lastClean, ob, blo, wlst, lastReload, adm, refs>>
+  /\ l' = l + 1 /\ UNCHANGED <<viol, cfg, fs, sf, lastSucc, lastMU, lastClean, ob, blo, wlst, lastReload, cl, adm, refs>>
 
 TrMUnban == /\ Is("MUnban") /\ ob' = Up(ob, Ev.ip, {}) /\ lastMU' = Up(lastMU, Ev.ip, Ev.t1)
-            /\ l' = l + 1 /\ UNCHANGED <<viol, cfg, fs, sf, lastSucc, lastClean, aU, aL, blo, wlst, lastReload, adm, refs>>
+            /\ l' = l + 1 /\ UNCHANGED <<viol, cfg, fs, sf, lastSucc, lastClean, aU, aL, blo, wlst, lastReload, cl, adm, refs>>
 
 TrBlk == /\ Is("Blk")
          /\ blo' = IF Ev.form \in FORMS
@@ -193,11 +207,11 @@ TrBlk == /\ Is("Blk")
                               [k |-> IF Ev.perm THEN "perm" ELSE "temp", from |-> Ev.t1 + cfg.mS,
                                to |-> Ev.t0 + cfg.bld - cfg.mE, born |-> Ev.t1, end |-> Ev.t1 + cfg.bld, line |-> l]])
                    ELSE blo
-         /\ l' = l + 1 /\ UNCHANGED <<viol, cfg, fs, sf, lastSucc, lastMU, lastClean, ob, aU, aL, wlst, lastReload, adm, refs>>
+         /\ l' = l + 1 /\ UNCHANGED <<viol, cfg, fs, sf, lastSucc, lastMU, lastClean, ob, aU, aL, wlst, lastReload, cl, adm, refs>>
 
 TrMUnbl == /\ Is("MUnbl")
            /\ blo' = IF Ev.form \in FORMS THEN Up(blo, Ev.ip, [blo[Ev.ip] EXCEPT ![Ev.form] = NoBl]) ELSE blo
-           /\ l' = l + 1 /\ UNCHANGED <<viol, cfg, fs, sf, lastSucc, lastMU, lastClean, ob, aU, aL, wlst, lastReload, adm, refs>>
+           /\ l' = l + 1 /\ UNCHANGED <<viol, cfg, fs, sf, lastSucc, lastMU, lastClean, ob, aU, aL, wlst, lastReload, cl, adm, refs>>
 
 \* whitelisting (either form) suspends the demand; when the last whitelist entry goes, it resumes for
 \* calls that begin after the removal returned
@@ -209,11 +223,11 @@ TrWl == /\ Is("Wl")
                         THEN Up(blo, Ev.ip, [f \in FORMS |-> IF blo[Ev.ip][f].from < Ev.t1 + cfg.mS
                                                               THEN [blo[Ev.ip][f] EXCEPT !.from = Ev.t1 + cfg.mS] ELSE blo[Ev.ip][f]])
                         ELSE blo
-        /\ l' = l + 1 /\ UNCHANGED <<viol, cfg, fs, sf, lastSucc, lastMU, lastClean, ob, aU, aL, lastReload, adm, refs>>
+        /\ l' = l + 1 /\ UNCHANGED <<viol, cfg, fs, sf, lastSucc, lastMU, lastClean, ob, aU, aL, lastReload, cl, adm, refs>>
 
 \* the demands outlive the manager instance: nothing changes but the history shape
 TrReload == /\ Is("Reload") /\ lastReload' = l
-            /\ l' = l + 1 /\ UNCHANGED <<viol, cfg, fs, sf, lastSucc, lastMU, lastClean, ob, aU, aL, blo, wlst, adm, refs>>
+            /\ l' = l + 1 /\ UNCHANGED <<viol, cfg, fs, sf, lastSucc, lastMU, lastClean, ob, aU, aL, blo, wlst, cl, adm, refs>>
 
 \* a clean-up run of the protector drops a failure record whose window is empty - and with it the
 \* lifetime count: unless some counted failure is certainly still inside the window, forget them
@@ -223,14 +237,15 @@ TrClean ==
            THEN [i \in IPS |-> IF \E x \in 1..Len(sf[i]) : Ev.t1 - sf[i][x].t0 < cfg.win - cfg.mE THEN sf[i] ELSE <<>>]
            ELSE sf
   /\ lastClean' = IF Ev.what = "bf" THEN Each(Ev.t1) ELSE lastClean
+  /\ cl' = IF Ev.what = "bf" THEN Append(cl, Iv) ELSE cl
   /\ l' = l + 1 /\ UNCHANGED <<viol, cfg, fs, lastSucc, lastMU, ob, aU, aL, blo, wlst, lastReload, adm, refs>>
 
-TrTick == Is("Tick") /\ l' = l + 1 /\ UNCHANGED <<viol, cfg, fs, sf, lastSucc, lastMU, lastClean, ob, aU, aL, blo, wlst, lastReload, adm, refs>>
+TrTick == Is("Tick") /\ l' = l + 1 /\ UNCHANGED <<viol, cfg, fs, sf, lastSucc, lastMU, lastClean, ob, aU, aL, blo, wlst, lastReload, cl, adm, refs>>
 
 TrEnd == /\ Is("End")
          /\ PrintT("VERDICT " \o ToJson([tr |-> Ev.tr, viol |-> SetToSeq(viol \cup (IF cfg = NoCfg THEN {} ELSE EndViol))]))
          /\ l' = l + 1 /\ viol' = {} /\ Reset
 
-Next == TrReload \/ TrCfg \/ TrHs \/ TrQuery \/ TrTake \/ TrAsync \/ TrMUnban \/ TrBlk \/ TrMUnbl \/ TrWl \/ TrClean \/ TrTick \/ TrEnd
+Next == TrQueryN \/ TrReload \/ TrCfg \/ TrHs \/ TrQuery \/ TrTake \/ TrAsync \/ TrMUnban \/ TrBlk \/ TrMUnbl \/ TrWl \/ TrClean \/ TrTick \/ TrEnd
 Spec == Init /\ [][Next]_vars
 =============================================================================
